@@ -1,8 +1,8 @@
 SPECIFICATION Spec
 CONSTANTS
-  N = 3
+  N = 4
   T = 3
-  Builder = "new"
+  Builder = "key"
   ExcludeTouch = FALSE
   U = 1
   EmitOn = FALSE
@@ -12,4 +12,5 @@ INVARIANT TotalOrder
 INVARIANT Sortable
 INVARIANT LIFO
 INVARIANT TreeOK
+INVARIANT AdjacentLess
 CHECK_DEADLOCK FALSE
